@@ -78,7 +78,7 @@ fn pl_content_with(field: &str, level: i64) -> Value {
     c
 }
 
-pub const TEMPLATES: [Template; 17] = [
+pub const TEMPLATES: [Template; 18] = [
     ("C promotes M to 100", C, "m.room.power_levels", "", || pl_content(&[(C, 100), (M, 100)])),
     ("C demotes M", C, "m.room.power_levels", "", || pl_content(&[(C, 100)])),
     ("M promotes U to 50", M, "m.room.power_levels", "", || pl_content(&[(C, 100), (M, 50), (U, 50)])),
@@ -97,6 +97,8 @@ pub const TEMPLATES: [Template; 17] = [
     ("C sets invite level 50", C, "m.room.power_levels", "", || pl_content_with("invite", 50)),
     ("C sets kick level 75", C, "m.room.power_levels", "", || pl_content_with("kick", 75)),
     ("C sets redact level 75", C, "m.room.power_levels", "", || pl_content_with("redact", 75)),
+    // a join-rule change by the moderator (needs level 50 from a power_levels event)
+    ("M sets join_rules knock", M, "m.room.join_rules", "", || json!({"join_rule": "knock"})),
 ];
 
 /// names for appended events: creation order and id order deliberately disagree
@@ -141,6 +143,12 @@ impl History {
     /// Base room. `with_power_levels = false` gives room B of the design (events without a
     /// power-level ancestor exist).
     pub fn base(v: u8, with_power_levels: bool) -> History {
+        History::base_with_create_sender(v, with_power_levels, C)
+    }
+
+    /// `create_sender` other than the creator is only meaningful before room version 11, where the
+    /// creator is `content.creator` (still C) and need not be the sender of the create event.
+    pub fn base_with_create_sender(v: u8, with_power_levels: bool, create_sender: &'static str) -> History {
         let mut h = History {
             v,
             store: Store::default(),
@@ -154,7 +162,7 @@ impl History {
             create_content["creator"] = json!(C);
         }
         let mut steps: Vec<(&str, &str, &str, &str, Value)> = vec![
-            ("b0", C, "m.room.create", "", create_content),
+            ("b0", create_sender, "m.room.create", "", create_content),
             ("b1", C, "m.room.member", C, json!({"membership": "join"})),
         ];
         if with_power_levels {
@@ -185,6 +193,13 @@ impl History {
         match kind {
             'A' => History::base(v, true),
             'B' => History::base(v, false),
+            // D / E: rooms A / B whose create event was *sent* by M while `content.creator` is C
+            // (legal before v11): "the creator" and "the sender of the create event" differ
+            'D' | 'E' => {
+                let mut h = History::base_with_create_sender(v, kind == 'D', M);
+                h.base_kind = kind;
+                h
+            }
             _ => {
                 let mut h = History::base(v, true);
                 let tip = h.nodes.len() - 1;
@@ -290,7 +305,10 @@ impl History {
 
     /// Nodes whose states are merged by the checks: a mid-base node, the base tip, everything appended.
     pub fn merge_candidates(&self) -> Vec<usize> {
-        let mut v = vec![self.base_len - 3];
+        // node 0 = the state right after the create event: its auth chain is empty, so merging it
+        // puts the create event itself into the auth difference
+        // (rooms D / E only: elsewhere it would only multiply the subsets)
+        let mut v = if matches!(self.base_kind, 'D' | 'E') { vec![0, self.base_len - 3] } else { vec![self.base_len - 3] };
         v.extend(self.base_len - 1..self.nodes.len());
         v
     }
